@@ -309,7 +309,7 @@ def generate(rng, profile, checks, nops, strict=False, counters=None, weights=No
     g = gen.Gen(rng, profile, weights)
     for op in g.initial(eng.pool, nv=nv):
         eng.step(op)
-    if profile in ("C02", "C19", "C03") and rng.random() < 0.8:
+    if (profile in ("C02", "C19", "C03") and rng.random() < 0.8) or (profile == "C01" and rng.random() < 0.5):
         eng.step(["mku", g.fresh("U"), [], None])
     for _ in range(nops):
         if rng.random() < 0.08:
